@@ -51,6 +51,8 @@ REQUIRED = ["cp:capacity:con4", "cp:capacity:con8", "sparse:capacity", "sparse:b
 # every (content, connectivity) combination of the dense labeller: the first/last-pixel and row-above branches are
 # asymmetric in both
 REQUIRED += ["cp:%s:con%d$" % (kind, c) for kind in ("bernoulli", "zeros", "full", "checker", "border") for c in (4, 8)]
+# label-set growth at each place a label is made
+REQUIRED += ["cp:growth:%s" % site for site in ("col0", "lastcol", "middle", "firstrow")]
 
 
 def kernel_sources():
